@@ -113,9 +113,12 @@ pub fn impl_decode(fmt: &str, bytes: &[u8]) -> (String, usize) {
                 .map(|b| hex(&b.serialize_for_net(BlockType::Header))),
             "gt" => Some(hex(&m!(GoldenTicket::deserialize_from_net(&v)).serialize_for_net())),
             "wallet" => {
+                // the pinned decoder returns `()`, a repaired one may return a `Result`: both are accepted
                 let mut w = Wallet::new([0; 32], [0; 33]);
-                m!(w.deserialize_from_disk(&v));
-                Some(hex(&w.serialize_for_disk()))
+                match UnitOrResult::as_result(m!(w.deserialize_from_disk(&v))) {
+                    Ok(()) => Some(hex(&w.serialize_for_disk())),
+                    Err(()) => None,
+                }
             }
             "msg" => m!(Message::deserialize(v.clone()))
                 .ok()
@@ -511,6 +514,21 @@ pub fn run(seed: u64, tier: &str, outdir: &str) {
     out.finish(serde_json::json!({"worker_failures": n}));
 }
 
+/// lets the harness compile against a decoder that returns `()` as well as one that returns `Result<(), _>`
+pub trait UnitOrResult {
+    fn as_result(self) -> Result<(), ()>;
+}
+impl UnitOrResult for () {
+    fn as_result(self) -> Result<(), ()> {
+        Ok(())
+    }
+}
+impl<E> UnitOrResult for Result<(), E> {
+    fn as_result(self) -> Result<(), ()> {
+        self.map_err(|_| ())
+    }
+}
+
 pub fn worker(seed: u64, tier: &str, start: usize) {
     let mut out = Emit { idx: 0, start };
     let mut r = Rng::new(seed);
@@ -521,11 +539,12 @@ pub fn worker(seed: u64, tier: &str, start: usize) {
     let mut hdr = vec![0u8, 0, 0, 1];
     hdr.extend(vec![0u8; 89]);
     let flags = format!(
-        "tx={} ghost={} gt={} wallet={}",
+        "tx={} ghost={} gt={} wallet={} msgghost={}",
         probe("tx", &hdr),
         probe("ghost", &[0u8; 10]),
         probe("gt", &[0u8; 96]),
-        probe("wallet", &[0u8; 10])
+        probe("wallet", &[0u8; 10]),
+        probe("msg", &[10u8, 0, 0, 0, 0, 0, 0, 0, 0, 0, 0])
     );
     if start == 0 {
         out.line("S", &format!("flags {}", flags));
